@@ -168,6 +168,10 @@ OPTSETS = {
     "seg+b": {"segments": [2, 5], "include_boundary_dofs": True},
     "seg+b+ext": {"segments": [2, 5], "include_boundary_dofs": True, "truncate_at_segment_edge": False},
     "seg1": {"segments": [1]},
+    # normals swapped on SOME elements only (seed C10-d: numpy.tile instead of numpy.repeat for the barycentric normal
+    # multipliers is invisible while all multipliers are equal)
+    "swap": {"swapped_normals": [2]},
+    "seg+swap": {"segments": [2, 5], "swapped_normals": [2]},
     "seg+trunc": {"segments": [2, 5], "truncate_at_segment_edge": True},
     "seg-ext": {"segments": [2, 5], "truncate_at_segment_edge": False},
 }
@@ -322,7 +326,8 @@ def correspondence(ctx):
                     res.disagree("sub-triangle affine map", mesh=name, element=e, sub=s, rel_error=float(err))
                 res.case(("sub", name, e, s), nontrivial=nonuni)
         # 3. dof_transformation of the barycentric representations
-        optkeys = ["full", "seg", "seg+b", "seg+b+ext"] if ctx.thorough else ["full", rng.choice(["seg", "seg+b"]), "seg+b+ext"]
+        optkeys = (["full", "seg", "seg+b", "seg+b+ext", "swap", "seg+swap"] if ctx.thorough
+                   else ["full", rng.choice(["seg", "seg+b"]), "seg+b+ext", rng.choice(["swap", "seg+swap"])])
         for kind, deg in (("P", 1), ("DP", 0), ("RWG", 0), ("SNC", 0)):
             for ok_ in optkeys:
                 opts = OPTSETS[ok_]
@@ -815,7 +820,8 @@ def oracle(ctx, deep=False):
         res.stats.setdefault("meshes", {})[name] = dict(elements=int(E.shape[1]), closed=closed, edge_ratio=round(float(ratio_l), 3),
                                                          distinct_areas=int(nareas))
         # (1) pointwise agreement of a function and its barycentric representation
-        keys = ["full", "seg", "seg+b", "seg+b+ext", "seg1"] if deep else ["full", rng.choice(["seg", "seg+b", "seg+b+ext"])]
+        keys = (["full", "seg", "seg+b", "seg+b+ext", "seg1", "swap", "seg+swap"] if deep
+                else ["full", rng.choice(["seg", "seg+b", "seg+b+ext"]), rng.choice(["swap", "seg+swap"])])
         for kind, deg in (("P", 1), ("DP", 0), ("RWG", 0), ("SNC", 0)):
             for ok_ in keys:
                 _pointwise(ctx, res, g, name, nonuni, kind, deg, ok_, 3 if deep else 2, worst)
